@@ -196,6 +196,30 @@ def replay(scn):
                         what = "unflatten(result): " + w
                 except Exception as e:  # noqa
                     what = "unflatten(result) raised %s: %s" % (type(e).__name__, str(e)[:200])
+            if what is None:
+                # Unflatten(r, g) of the specification: one grouped axis expanded - given by position (0 included) or by name -, the
+                # other grouped axes left as they are; expanding the rest afterwards gives the same array as unflatten()
+                e = exp["r"]
+                grouped = [k for k, kd in enumerate(e["kinds"]) if kd == "t"]
+                if len(grouped) >= 2:
+                    for g in grouped:
+                        for ref in (g, e["dims"][g]):
+                            calls += 1
+                            try:
+                                part = res.unflatten(ref)
+                                wantd = e["dims"][:g] + e["dims"][g].split(",") + e["dims"][g + 1:]
+                                if list(part.dims) != wantd:
+                                    what = "unflatten(%r): dims expected %s got %s" % (ref, wantd, list(part.dims))
+                                else:
+                                    w = _cmp(exp["back"], project_grouped(part.unflatten(), codec), codec, kmap, True)
+                                    if w:
+                                        what = "unflatten(%r).unflatten(): %s" % (ref, w)
+                            except Exception as ex:  # noqa
+                                what = "unflatten(%r) raised %s: %s" % (ref, type(ex).__name__, str(ex)[:200])
+                            if what:
+                                break
+                        if what:
+                            break
             if what is None and i["op"] == "flatten":
                 # the value at a grouped position equals the original value at that combination of labels: read the grouped
                 # axis by position (list, slice, mask) and compare with the expected array sampled at those positions
